@@ -319,6 +319,21 @@ def c17_replay(pid, path, text):
     return 0
 
 
+def jobs_C18(tier, scale):
+    return [graph_job("C18", "conc", _classes(ALL8, ["int", "string"]), tier, scale, 480, 16000, "concurrent readers on a shared graph (T in {2,4,8}, 1-3 rounds, shuffled entry-point order)",
+                      config="tsan", nmin=2, nmax=7, conc=1, max_size=50)]
+
+
+def jobs_C20(tier, scale):
+    from . import c20
+    return [dict(engine="custom", fn=c20.c20_job, label="matrix {documented entry point} x {label kind} x {standard} x {compiler}; headers alone/twice; two-TU programs linked and run", targets=[])]
+
+
+def c20_replay_hook(pid, path, text):
+    from . import c20
+    return c20.c20_replay(pid, path, text)
+
+
 RULE_HIST = ("rapidcheck-generated call histories (0-%d ops, sizes 0-12) executed against the real class and an independent std::map model; "
              "all public observers compared after every step. ")
 
@@ -418,6 +433,22 @@ PROPS = {
                 "target over histories and 300 cases per stream under valgrind memcheck (the only detector of uninitialised reads available: MSan has no instrumented libstdc++ here, so that clause "
                 "is sampled much more thinly). Non-trivial by the rule of the stream's own property; distinct by case text.",
                 assumptions=["libstdc++ is not instrumented: accesses inside it are judged only through its debug-mode checks"]),
+    "C18": dict(jobs=jobs_C18, min_nontrivial=dict(quick=100, thorough=2000),
+                rule="generated graphs of each of the eight classes; T in {2,4,8} threads start behind one barrier and are otherwise unsynchronised; each runs EVERY const entry point "
+                "(all observers incl. the throwing getters, vertex and edge iteration, ==/!=, copy construction and assignment, operator<<, reversal, both conversions, both subgraph extractions, "
+                "the six breadth-first searches, the path-reconstruction helpers, Dijkstra, asLabeledGraph, text and binary writers to per-thread files) in a generated order for 1-3 rounds. "
+                "Oracles: ThreadSanitizer (happens-before, so the verdict does not depend on the interleaving that happened to occur) reports nothing; every per-call digest equals the "
+                "single-threaded baseline; the shared graph is unchanged. Non-trivial: T>=4 and >=3 edges.",
+                assumptions=["accesses inside the uninstrumented libstdc++ are invisible to TSan", "schedules are not enumerated"]),
+    "C20": dict(jobs=jobs_C20, min_nontrivial=dict(quick=500, thorough=1000), replay_hook=c20_replay_hook, exhaustive=True,
+                exhaustive_scope=dict(quick="every catalogue snippet x 8 label kinds x {C++14, C++17} x {g++ 12, clang++ 14}", thorough="... x {C++14, C++17, C++20}, plus Hypothesis-generated programs"),
+                rule="complete enumeration of the matrix {documented entry point snippet (progmatrix/catalogue.py, written from the Doxygen comments, README and examples)} x {label kind: none, int, "
+                "unsigned, double, char, std::string, struct with ==, struct with only a default constructor} x {language standard} x {g++, clang++}, restricted by the documented requirements "
+                "(label-valued hasEdge and == need operator==, the std::to_string default needs an arithmetic label, binary IO a trivially copyable non-string label). One -fsyntax-only TU per "
+                "(label kind, standard, compiler), bisected cell by cell on failure; every header compiled on its own and included twice; per label kind a two-TU program that includes every "
+                "header in two different orders (some twice), is linked and run. Oracle: the compilers and the linker accept it, the program exits 0. "
+                "Non-trivial: a cell whose label kind the repository's tests do not instantiate (anything but none/int), a header included twice, a multi-TU program. The matrix is enumerated completely.",
+                assumptions=["two compilers and the standards they implement; other toolchains are out of reach in this sandbox"]),
     "C16": dict(jobs=jobs_C16, min_nontrivial=dict(quick=300, thorough=3000),
                 rule=RULE_HIST % 80 + "Non-trivial: a forced duplicate exists and is later removed by removeDuplicateEdges or removeEdge.",
                 assumptions=["all copies of a pair carry the same label/weight/multiplicity (by construction)", "multigraph: weaker reading (deduplicated graph holds each pair once with the multiplicity its copies carried)"]),
